@@ -361,6 +361,10 @@ impl BinaryMatrix for SparseBinaryMatrix {
             self.dense_elements.extend(vec![0; self.height]);
             let mut dest = self.dense_elements.len();
             // Re-space the elements, so that each row has an empty word
+            // (nothing to move when the matrix had no dense words yet: the new words are zero)
+            if src == 0 {
+                dest = 0;
+            }
             while src > 0 {
                 src -= 1;
                 dest -= 1;
